@@ -29,8 +29,11 @@ var vFew6 = []int{64, 96, 128}
 func vNetwork(tag string, few bool) vNet {
 	var n vNet
 	o4, o6 := vOnes4, vOnes6
-	if few && !verifThorough() {
+	if few {
 		o4, o6 = vFew4, vFew6
+		if verifThorough() {
+			o4, o6 = []int{0, 8, 9, 24, 31, 32}, []int{0, 64, 65, 96, 127, 128}
+		}
 	}
 	switch ndChoice(tag+"-shape", 3) {
 	case 0: // IPv4 CIDR
@@ -116,5 +119,5 @@ func vNetSet(k int, few bool) {
 func vh_C15_netset_single() { vNetSet(1, false) }
 
 // two networks (order matters for the set's buckets): nested, sibling and mixed-family pairs
-// verif: bv unwind=40 also=C19 paths=200000 steps=4000000
+// verif: bv unwind=40 also=C19 paths=400000 steps=4000000
 func vh_C15_netset_pair() { vNetSet(2, true) }
